@@ -306,6 +306,26 @@ def _extract_from_filters(
                     ):
                         yield message
 
+        if expression.tail_filters:
+            # A tail filter is the first filter applied to a branch without
+            # filters of its own.
+            tail_filter = expression.tail_filters[0]
+            if tail_filter.name in keywords:
+                filter_callable = environment.filters.get(tail_filter.name)
+                if isinstance(filter_callable, TranslatableFilter):
+                    branches: list[Expression] = []
+                    if not expression.left.filters:
+                        branches.append(expression.left.left)
+                    if expression.alternative and not expression.filters:
+                        branches.append(expression.alternative)
+                    for branch in branches:
+                        if message := filter_callable.message(  # type: ignore
+                            branch,
+                            tail_filter,
+                            lineno,
+                        ):
+                            yield message
+
 
 def _strip_comment_tags(comments: list[str], tags: list[str]) -> list[str]:
     """Similar to Babel's messages.extract._strip_comment_tags."""
